@@ -40,6 +40,11 @@ POSITIONS = {
     'two-model-versions': 'select * from int1.t1 as t join proj.pred2.1 as m1 join proj.pred2.2 as m2',
     'model-version-and-plain': 'select * from int1.t1 as t join proj.pred2.3 as m1 join proj.pred2 as m2',
     'two-models-then-table': 'select * from int1.t1 as t join mindsdb.pred.7 as m1 join {T} as x on x.a = t.a join mindsdb.pred.8 as m2',
+    # three-part names whose middle part (a schema inside the integration) is spelled like ANOTHER integration
+    'schema-named-like-integration-from': 'select * from int1.int2.t5 where a in (select a from {T})',
+    'schema-named-like-integration-join': 'select * from int1.int2.t5 as a join {T} as b on a.a = b.a',
+    'schema-named-like-integration-join-2nd': 'select * from {T} as b join int2.int1.t6 as a on a.a = b.a',
+    'schema-named-like-project-join': 'select * from int1.mindsdb.t5 as a join {T} as b on a.a = b.a',
     # versioned and plain references to one model in different places of one statement
     'model-plain-outer-versioned-subquery': 'select * from mindsdb.pred where a = (select b from mindsdb.pred.3 where a = 1)',
     'model-versioned-outer-plain-subquery': 'select * from mindsdb.pred.3 where a = (select b from mindsdb.pred where a = 1)',
@@ -163,6 +168,12 @@ def _facts(sql, tables, cat, plan):
             q = getattr(o, 'query', None)
             fetches.append({'int': str(o.integration).lower(), 'tables': table_occurrences(q) if q is not None else [],
                             'sql': str(q)})
+        elif k == 'DeleteStep':
+            # the statement is executed by the integration of its target table; tables inside its WHERE travel with it
+            tparts = [str(p) for p in o.table.parts]
+            db = tparts[0].lower() if len(tparts) > 1 and tparts[0].lower() in cat['ints'] else cat['default']
+            w = getattr(o, 'where', None)
+            fetches.append({'int': db, 'tables': table_occurrences(w) if w is not None else [], 'sql': 'DELETE .. WHERE %s' % w})
         elif k in ('ApplyPredictorStep', 'ApplyPredictorRowStep', 'ApplyTimeseriesPredictorStep', 'GetPredictorColumns'):
             applies.append({'ns': str(o.namespace).lower(), 'name': name_rec(o.predictor.parts)})
     for s in plan.steps:
@@ -190,7 +201,8 @@ def _hist(args):
 
 def run(ctx):
     thorough = ctx.tier == 'thorough'
-    cats = ['names', 'dicts', 'legacy-dict', 'no-default'] if thorough else ['names', 'dicts', 'legacy-dict']
+    cats = ['names', 'dicts', 'legacy-dict', 'no-default', 'default-int1', 'default-int2-dicts'] if thorough else \
+        ['names', 'dicts', 'legacy-dict', 'default-int1']
     spellings = ['lower', 'upper', 'mixed']
     work, meta = [], []
     for pos, tmpl in POSITIONS.items():
